@@ -1135,6 +1135,15 @@ def build(tier='quick', seed=0):
         decl('float', 'f32', validators=[V('less_or_equal', 'f32::INFINITY', float('inf'), 'expr')], derives=['Debug', 'TryFrom'], tags=['trivial']),
     ]
     full += triv
+    # valid sets of exactly one value, spelled through expressions (the macro cannot compare those bounds with each other)
+    for t in ['u8', 'i8', 'i32', 'i128']:
+        U = t.upper()
+        full.append(decl('int', t, validators=[V('greater_or_equal', f'K_{U}', K, 'expr'), V('less_or_equal', f'K_{U}', K, 'expr')],
+                         derives=['Debug', 'TryFrom', 'Arbitrary'], tags=['single-value']))
+        full.append(decl('int', t, validators=[V('greater', f'{t}::MAX - 1', int_max(t) - 1, 'expr')], derives=['Debug', 'TryFrom', 'Arbitrary'], tags=['single-value']))
+        full.append(decl('int', t, validators=[V('less', f'{t}::MIN + 1', int_min(t) + 1, 'expr')], derives=['Debug', 'TryFrom', 'Arbitrary'], tags=['single-value']))
+        full.append(decl('int', t, validators=[V('greater', str(K - 1), K - 1, 'lit'), V('less', f'K_{U} + 1', K + 1, 'expr')], derives=['Debug', 'Arbitrary'], tags=['single-value']))
+        full.append(decl('int', t, validators=[V('greater_or_equal', '0x10', 16, 'expr'), V('less_or_equal', '16', 16, 'lit')], derives=['Debug', 'Arbitrary'], tags=['single-value']))
 
     # validated + Default with default expressions that are not a literal (struct literal, block, string with braces): the
     # expression is spliced into generated code and, in some templates, into messages
